@@ -2,7 +2,9 @@ package saslauthenticate
 
 import (
 	"encoding/binary"
+	"fmt"
 	"io"
+	"io/ioutil"
 
 	"github.com/segmentio/kafka-go/protocol"
 )
@@ -42,10 +44,17 @@ func (r *Request) readResp(read io.Reader) (protocol.Message, error) {
 		return nil, err
 	}
 	respLen := int32(binary.BigEndian.Uint32(lenBuf[:]))
-	data := make([]byte, respLen)
-
-	if _, err := io.ReadFull(read, data[:]); err != nil {
+	if respLen < 0 {
+		return nil, fmt.Errorf("invalid negative sasl response size: %d", respLen)
+	}
+	// Let the buffer grow with the data received instead of trusting the
+	// length prefix.
+	data, err := ioutil.ReadAll(io.LimitReader(read, int64(respLen)))
+	if err != nil {
 		return nil, err
+	}
+	if len(data) != int(respLen) {
+		return nil, io.ErrUnexpectedEOF
 	}
 	return &Response{
 		AuthBytes: data,
